@@ -349,6 +349,20 @@ def step1 (fo : FloatOps) (fuel : Nat) (s : St) (op : Json) : E (St × Json) := 
     -- meta-data edits: the model's histograms carry no meta data (values): nothing changes
     let _ ← s.get (← reg "h")
     pure (s, Json.str "ok")
+  | "set_adaptive" =>
+    -- `h.set_adaptive(v)` / `h.adaptive = v` / `h.binning.set_adaptive(v)`: the flag of the binning, in place; only a
+    -- fixed-width binning can become adaptive (the histogram-level call refuses any other binning whatever the value)
+    let r ← reg "h"
+    let h ← s.get r
+    let v := getBoolD op "value" true
+    match h.binning with
+    | .fixed g => pure (s.set r { h with binning := .fixed { g with adaptive := v } }, Json.str "ok")
+    | .static _ _ => pure (s, Json.str (if v || !(getBoolD op "on_binning" false) then "REFUSED" else "ok"))
+  | "set_keep" =>
+    -- `h.keep_missed = v`: a plain attribute; the stored missed weights stay as they are
+    let r ← reg "h"
+    let h ← s.get r
+    pure (s.set r { h with keep := getBoolD op "value" true }, Json.str "ok")
   | "copy" =>
     let h ← s.get (← reg "h")
     pure (s.set (← reg "out") (h.copy (getBoolD op "with_freq" true)), Json.str "ok")
